@@ -186,17 +186,18 @@ Definition q_median (hi : Z) (ax : axarg) (a : nobj) : res :=
               ((nthZ ((n - 1) / 2) s + nthZ (n / 2) s)%Z, 2%Z))
     (fun l => count_um l =? 0).
 
-(* any / all (Qube.any): no axis check of its own (NumPy rejects illegal axes), no
-   zero-sized branch; a scalar mask is passed through *)
+(* any / all (Qube.any): illegal axes are rejected (by NumPy; for shape () the code as
+   it stands ignores the axis - known finding KF-C13-anyall-shapeless-axis, the model
+   states the intended rejection); no zero-sized branch; a scalar mask is passed through *)
 Definition bz (b : bool) : Z * Z := unit (if b then 1%Z else 0%Z).
 Definition nz (z : Z) : bool := negb (Z.eqb z 0).
 Definition q_anyall (isall : bool) (ax : axarg) (a : nobj) : res :=
-  match nsh a with
-  | [] => self_res a (fun v => bz (nz v))
-  | _ =>
-    match axes_sel (length (nsh a)) ax with
-    | None => RErr
-    | Some sel =>
+  match axes_sel (length (nsh a)) ax with
+  | None => RErr
+  | Some sel =>
+    match nsh a with
+    | [] => self_res a (fun v => bz (nz v))
+    | _ =>
       let keep := keep_of sel in
       let os := out_shape (nsh a) keep in
       let c := contrib (parr a) keep in
@@ -228,7 +229,11 @@ Definition q_sort (hi : Z) (ax : axarg) (a : nobj) : res :=
     match axes_sel (length (nsh a)) ax with
     | None => RErr
     | Some sel =>
-      if size (nsh a) =? 0 then self_res a unit                   (* shape kept as it is *)
+      if size (nsh a) =? 0
+      then match ax with                     (* nothing to sort; axis=None flattens *)
+           | AxNone => ROk (mkr [0] (fun _ => unit 0%Z) (fun _ => true))
+           | _ => self_res a unit
+           end
       else
         let keep := keep_of sel in
         let flat := match ax with AxNone => true | _ => false end in
